@@ -10,6 +10,7 @@ import AslModel.Crash
 import Proofs.C03
 import Proofs.Lemmas.CrashSeq
 import Proofs.Lemmas.CrashSeqF1
+import Proofs.Lemmas.CrashFlatMain
 namespace Asl.C04
 open Asl
 
@@ -183,6 +184,51 @@ theorem crash_free_task_sequences (N : Nat) :
     Ended N (drain Quirks.none (mu (init (tasks N))) (init (tasks N))) :=
   (crash_safe_task_sequences N [] (init (tasks N)) (by simp [run])).1
 
+/-! #### (i') fan-outs: Parallel and Map states whose branches are such sequences -/
+
+open Asl.Crash in
+/-- **Exactly once, with fan-outs.**  For every *flat* skeleton `sk` — Task visits (first attempts and retries), plain steps
+and Waits, and any number of Parallel / Map states (without MaxConcurrency), one after the other, each with any number of
+branches that are sequences of Task visits, steps and Waits — and every schedule — any interleaving of the branches'
+operations that the protocol has enabled, the engine dying and restarting between two handler invocations any number of
+times, at any points (before the launch, between the branches' visits, with any part of the join filled) —, letting the
+engine run on crash-free ends the execution: exactly one terminal notification, each of the `tasksIn sk` requests (of the
+top level and of every branch) sent exactly once, and nothing left in the event queue, the reply queue or the engine's
+memory (timers, pending requests, orphans, joins).  The join a crash wiped is rebuilt from the redelivered held events and
+held replies; nothing is requested again.  (`Proofs/Lemmas/CrashFlat*.lean`: the invariant `PInv` over the operation list,
+no bound on its length, on the number of branches or on the number of fan-out states.) -/
+theorem crash_safe_flat (sk : Sk) (hsk : sk.flat = true) (ops : List Op) (c : Cfg)
+    (hr : run Quirks.none (init sk) (ops.map (fun o => (o, none))) = some c) :
+    Ended (tasksIn sk) (drain Quirks.none (mu2 c) c) ∧
+      observe (drain Quirks.none (mu2 c) c) =
+        { terminal := true, notes := 1, resent := [], pendingUnsent := [], pendingLost := [], quiet := true } := by
+  have hi := prun _ c ops (pinv_init sk hsk) hr
+  obtain ⟨hi', hq⟩ := pdrain (mu2 c) c hi (Nat.le_refl _)
+  have he := pended hi' hq
+  exact ⟨he, observe_ended _ _ he⟩
+
+open Asl.Crash in
+/-- The full-strength statement: the quirk-free protocol is crash-safe on skeleton `sk` — every schedule with crashes
+between handler invocations anywhere ends, after a crash-free run, with one terminal notification, every request (Task
+visits of all levels, child executions started) sent exactly once and nothing left behind. -/
+def CrashSafe (sk : Sk) : Prop :=
+  ∀ (ops : List Op) (c : Cfg), run Quirks.none (init sk) (ops.map (fun o => (o, none))) = some c →
+    ∃ fuel, Ended (tasksIn sk) (drain Quirks.none fuel c)
+
+open Asl.Crash in
+/-- `CrashSafe` is proved for flat skeletons (which include all sequences).  What is missing for `∀ sk, CrashSafe sk` (on
+skeletons without `fail` / `opaque`): Map states with MaxConcurrency (the batches and their re-entry events — the model has
+them, with the durable record of started batches, and `decide` examples below run them —, not yet in the invariant), fan-out
+states nested in branches (the crash-safe hand-over of a nested join's held events to the enclosing join), and synchronous
+child executions (a second execution whose terminal answer is a message of the reply queue). -/
+theorem crash_safe_partial (sk : Sk) (hsk : sk.flat = true) : CrashSafe sk :=
+  fun ops c hr => ⟨mu2 c, (crash_safe_flat sk hsk ops c hr).1⟩
+
+open Asl.Crash in
+/-- sequences are flat: `crash_safe_sequences` is the instance without fan-out states -/
+theorem crash_safe_sequences_flat (sk : Sk) (hsk : sk.seq = true) : CrashSafe sk :=
+  crash_safe_partial sk (flat_of_seq hsk)
+
 namespace Witness
 open Asl.Crash
 /-- a Task whose first attempt fails and is retried (the retry's event carries RetryCount 1), then a step -/
@@ -302,6 +348,27 @@ example : (Asl.Crash.run Asl.Crash.Quirks.none (Asl.Crash.init (.task 0 (.step .
 /-- … and of `quirks_only_hurt_at_their_window`: crashes outside the window -/
 example : (Asl.Crash.runW Asl.Crash.qF1 (Asl.Crash.init (Asl.Crash.tasks 2))
     [.ev 0, .tm 0, .crash, .rp 0, .ev 0, .tm 0, .tick, .crash, .ev 1]).isSome = true := by decide +kernel
+/-- hypothesis of `crash_safe_flat`: a Task, then a Parallel with three branches (a retried Task and a step; a Wait; a Task), then
+a step; a schedule with four crashes (before the launch, between the branches' visits, with part of the join filled) that is
+executable -/
+example : (Asl.Crash.Sk.task 0 (.par 0 (.cons (.task 0 (.task 1 (.step .done))) (.cons (.wait .done) (.cons (.task 0 .done) .nil)))
+      (.step .done))).flat = true ∧
+    (Asl.Crash.run Asl.Crash.Quirks.none (Asl.Crash.init (.task 0 (.par 0 (.cons (.task 0 (.task 1 (.step .done)))
+        (.cons (.wait .done) (.cons (.task 0 .done) .nil))) (.step .done))))
+      ([Asl.Crash.Op.ev 0, .rp 0, .ev 1, .crash, .ev 1, .tm 1, .ev 2, .ev 4, .crash, .ev 3, .tm 3, .rp 4, .ev 4, .ev 2, .tick,
+        .crash, .ev 2, .rp 2, .ev 3, .tm 3].map (fun o => (o, none)))).isSome = true := by
+  decide +kernel
+/-- beyond the proved class, by computation: a Map with MaxConcurrency 1 over two items (Task, then step) with a crash
+after the second batch was started — the crash-safe protocol does not start the batch again (two requests), the engine's
+does (three: the open finding C04-F7) -/
+example :
+    ((Asl.Crash.run Asl.Crash.Quirks.none (Asl.Crash.init (.par 1 (.cons (.task 0 (.step .done)) (.cons (.task 0 (.step .done)) .nil)) .done))
+      ([Asl.Crash.Op.ev 0, .tm 0, .ev 1, .rp 1, .ev 2, .ev 3, .tm 3, .crash, .ev 2].map (fun o => (o, none)))).map
+        (fun c => ((Asl.Crash.drain Asl.Crash.Quirks.none 200 c).sent.length, (Asl.Crash.drain Asl.Crash.Quirks.none 200 c).notes))) = some (2, 1) ∧
+    ((Asl.Crash.run { batchRelaunched := true } (Asl.Crash.init (.par 1 (.cons (.task 0 (.step .done)) (.cons (.task 0 (.step .done)) .nil)) .done))
+      ([Asl.Crash.Op.ev 0, .tm 0, .ev 1, .rp 1, .ev 2, .ev 3, .tm 3, .crash, .ev 2].map (fun o => (o, none)))).map
+        (fun c => ((Asl.Crash.drain { batchRelaunched := true } 200 c).sent.length, (Asl.Crash.drain { batchRelaunched := true } 200 c).notes))) = some (3, 1) := by
+  decide +kernel
 /-- the crash-safe protocol on the fan-out witnesses: the reply is held by the join / the nested join's events by the
 enclosing one, and the runs complete with every request sent once -/
 example : (Asl.Crash.run Asl.Crash.Quirks.none (Asl.Crash.init Witness.par2) Witness.schedF2).map
